@@ -24,7 +24,9 @@ CONSTANTS MaxTok,       \* bound on tokens (expression + statement actions)
           MaxStack,     \* bound on expression stack depth
           MaxStmts,     \* bound on statements
           SigId,        \* which signature (see Sig)
-          Stmts         \* TRUE: statement templates enabled; FALSE: single return expression
+          Stmts,        \* TRUE: statement templates enabled; FALSE: single return expression
+          Lean          \* TRUE: only variables and one operator per kind in expressions, so that BFS reaches
+                        \* deep STATEMENT structure (swap-then-use, if/else, loops) within the token bound
 
 VARIABLES stack, frames, scope, ntok, nst, done
 
@@ -117,7 +119,15 @@ TupSel == /\ Len(stack) >= 1 /\ Top(0).k = "t" /\ Top(0).n.T = "Name"
              \/ Repl(1, E(Sub(Top(0).n, CI(1)), "b", TRUE))
              \/ Repl(1, E(Sub(Top(0).n, CI(2)), "i", TRUE))
 
-ExprStep == /\ Len(stack) < MaxStack + 1
+LeanBin == /\ Len(stack) >= 2 /\ Top(0).k = Top(1).k /\ Top(0).k \in {"i", "b"} /\ (Top(0).hv \/ Top(1).hv)
+           /\ Repl(2, E(Bin(IF Top(0).k = "i" THEN "Add" ELSE "BitXor", Top(1).n, Top(0).n), Top(0).k, TRUE))
+LeanCmp == /\ Len(stack) >= 2 /\ Top(0).k = "i" /\ Top(1).k = "i" /\ (Top(0).hv \/ Top(1).hv)
+           /\ Repl(2, E(Cmp("Gt", Top(1).n, Top(0).n), "b", TRUE))
+LeanStep == /\ Len(stack) < MaxStack + 1
+            /\ (PushVar \/ LeanBin \/ LeanCmp \/ \E v \in {1} : Push(E(CI(v), "i", FALSE)))
+            /\ UNCHANGED <<frames, scope, nst, done>>
+
+ExprStep == /\ ~Lean /\ Len(stack) < MaxStack + 1
             /\ \/ PushVar \/ PushConst \/ IntBin \/ IntShift \/ IntMod \/ IntInv \/ IntPow \/ IntCmp \/ BoolCmp
                \/ BoolBin \/ BoolTern \/ BoolNot \/ IfExpr \/ MinMax2 \/ BitSel \/ FixBin \/ FixMul \/ FixConv
                \/ ListOps \/ ListIdx \/ ConstListIdx \/ TupSel
@@ -188,7 +198,7 @@ StForClose == /\ stack = <<>> /\ CurFrame.kind = "for" /\ Len(CurFrame.stmts) > 
               /\ scope' = [x \in DOMAIN scope \ {"i"} |-> scope[x]]
               /\ UNCHANGED <<stack, nst, done>>
 
-RetDescs(k) == IF k = "b" THEN {TBool} ELSE IF k = "f" THEN {TFix(FixI, FixF)} ELSE {TInt(2), TInt(4), TInt(8)}
+RetDescs(k) == IF k = "b" THEN {TBool} ELSE IF k = "f" THEN {TFix(FixI, FixF)} ELSE {TInt(2), TInt(4), TInt(8), TInt(12)}
 StReturn == /\ Len(stack) = 1 /\ Scalar(Top(0).k) /\ Len(frames) = 1 /\ (Top(0).hv \/ nst > 0)
             /\ \E rd \in RetDescs(Top(0).k) :
                  done' = [T |-> "FunctionDef", name |-> "f",
@@ -204,7 +214,7 @@ Init == /\ stack = <<>> /\ frames = <<[kind |-> "body", stmts |-> <<>>]>>
         /\ scope = [n \in {Sig[j].n : j \in 1..Len(Sig)} |-> Sig[CHOOSE j \in 1..Len(Sig) : Sig[j].n = n].k]
         /\ ntok = 0 /\ nst = 0 /\ done = NoDone
 Next == /\ done = NoDone /\ ntok < MaxTok
-        /\ (ExprStep \/ StmtStep)
+        /\ (ExprStep \/ (Lean /\ LeanStep) \/ StmtStep)
         /\ ntok' = ntok + 1
 Spec == Init /\ [][Next]_vars
 
